@@ -66,7 +66,7 @@ func init() {
 	reg("C17", propCfg{Quick: tierCfg{Checks: 20000, Timeout: 8 * m}, Thor: tierCfg{Checks: 1000000, Timeout: 90 * m}})
 	reg("C18", propCfg{Quick: tierCfg{Checks: 20000, Timeout: 8 * m}, Thor: tierCfg{Checks: 1000000, Timeout: 90 * m}})
 	reg("C19", propCfg{Race: true, Quick: tierCfg{Checks: 160, Shards: 4, Timeout: 8 * m}, Thor: tierCfg{Checks: 6000, Shards: 4, Timeout: 90 * m}})
-	reg("C20", propCfg{Quick: tierCfg{Checks: 400000, Timeout: 8 * m}, Thor: tierCfg{Checks: 40000000, Timeout: 90 * m}})
+	reg("C20", propCfg{Quick: tierCfg{Checks: 400000, Timeout: 8 * m}, Thor: tierCfg{Checks: 12000000, Timeout: 90 * m}})
 }
 
 func getenv(k, d string) string {
